@@ -304,6 +304,16 @@ def run(ctx):
                     hdr = "bytes=%d-%s" % (first,
                                            "" if last is None else last)
                     one("e2e", big, [(first, last)], hdr={"Range": hdr})
+                # positions are numbers of any size, with or without
+                # leading zeros
+                for (first, last), hdr in (
+                        ((3, 10 ** 20), "bytes=3-1" + "0" * 20),
+                        ((None, 10 ** 20), "bytes=-1" + "0" * 20),
+                        ((10 ** 20, None), "bytes=1" + "0" * 20 + "-"),
+                        ((2, 5), "bytes=2-" + "0" * 19 + "5"),
+                        ((2, 5), "bytes=" + "0" * 25 + "2-5"),
+                        ((0, 2 ** 63), "bytes=0-%d" % 2 ** 63)):
+                    one("e2e", big, [(first, last)], hdr={"Range": hdr})
             # range lists of length 0 and 2
             one("buf", data, [])
             one("gen", data, [], compositions(L, False, rng, 1)[0])
